@@ -300,10 +300,13 @@ def gen_expr(rng, depth, discrete):
     if depth == 0 or r < 0.12:
         return ('var',) if rng.random() < 0.7 else ('c', small_const(rng))
     if r < 0.42:
-        arg = gen_affine(rng) if rng.random() < 0.7 else gen_expr(rng, depth - 1, discrete)
+        fn = gen_fn(rng, discrete)
+        # the discrete-time functions jump at points that are legitimate sample points (u[0] = 1): their argument must be
+        # computed exactly, so it is an affine function of the variable with dyadic coefficients, never a nested sinc
+        arg = gen_affine(rng) if (rng.random() < 0.7 or fn in DISC_FNS) else gen_expr(rng, depth - 1, discrete)
         if not has_var(arg):
             arg = ('add', arg, ('var',))
-        return ('app', gen_fn(rng, discrete), arg)
+        return ('app', fn, arg)
     if r < 0.56:
         return ('add', gen_expr(rng, depth - 1, discrete), gen_expr(rng, depth - 1, discrete))
     if r < 0.64:
@@ -617,6 +620,7 @@ def run(chk, replay=None):
         zero_body = any(a.expr == 0 for pwz in E.sympy.atoms(sym.Piecewise) for a in pwz.args)
         if zero_body:
             chk.count('degenerate', 'piecewise-with-zero-body')
+            return
         for x in xs:
             fails, inf = judge_expr(e, vname, x, E)
             if zero_body:
@@ -862,8 +866,8 @@ def run(chk, replay=None):
                  sym.exp(-L.R(a) * t) * sym.Heaviside(t) + L.xf.rect(t - 1) * sym.sin(t), sym.tanh(L.R(b) * t) - sym.exp(-t ** 2)]
         e = rng.choice(forms)
         E = L.lcapy.expr(e)
-        for xq in [dyadic(rng), dyadic(rng), Fraction(0), Fraction(-3, 2)]:
-            if abs(xq) > 20:
+        for xq in [dyadic(rng), dyadic(rng), Fraction(1, 4), Fraction(-3, 2)]:
+            if abs(xq) > 20 or xq in (Fraction(0), Fraction(1, 2), Fraction(3, 2)):
                 continue
             chk.case((str(e), xq, 'transcendental'), nontrivial=True)
             ref = complex(sym.N(e.subs(t, L.R(xq)), 30))
@@ -1018,6 +1022,9 @@ def run(chk, replay=None):
         try:
             E = L.lcapy.expr(L.to_sympy(e, L.vars['t'].sympy), causal=True)
         except Exception:   # noqa
+            continue
+        if not E.sympy.has(L.vars['t'].sympy):
+            chk.count('degenerate', 'variable-simplified-away')
             continue
         xq = -abs(dyadic(rng)) - Fraction(1, 16)
         chk.case((' '.join(toks(e)), xq, 'causal-assumed'), nontrivial=True)
